@@ -318,7 +318,10 @@ def redis_bucket_expiry(ctx: Ctx, rule: str) -> None:
     sc = [c for c in ast.walk(st.node) if isinstance(c, ast.Call) and dotted(c.func) == "self.conn.set"]
     ctx.require(len(sc) == 1, f"{st.qualname}: the SET call not found")
     rel = [k.arg for k in sc[0].keywords if k.arg in ("ex", "px", "pxat", "keepttl")]
-    ex = C.call_as_expr(ctx, st, C.inline_locals(st, C.kw(sc[0], "exat"), calls="all"))
+    ex = C.kw(sc[0], "exat")
+    if isinstance(ex, ast.Name) and C.stored_value(st, ex.id) is not None:
+        ex = C.stored_value(st, ex.id)  # computed into a local, by one assignment or by the two arms of an if/else
+    ex = C.call_as_expr(ctx, st, C.inline_locals(st, ex, calls="all"))
     t = C.negate_aware_ifexp(ex) if ex is not None else None
     ok = not rel and t is not None and isinstance(t[0], ast.Compare) and dotted(t[0].left) == "payload.ttl" and C.is_const(t[0].comparators[0], None) and C.is_const(t[1], None) \
         and isinstance(t[2], ast.BinOp) and isinstance(t[2].op, ast.Add) and {dotted(t[2].left), dotted(t[2].right)} == {"payload.timestamp", "payload.ttl"}
@@ -356,7 +359,7 @@ def bucket_brokers(ctx: Ctx, rule="R-C13-FIELDS") -> None:
     rd = "repid.connections.redis.bucket_broker.RedisBucketBroker"
     st = ctx.func(f"{rd}.store_bucket")
     sc = [c for c in ast.walk(st.node) if isinstance(c, ast.Call) and dotted(c.func) == "self.conn.set"]
-    ok = len(sc) == 1 and dotted(sc[0].args[0]) == "id_" and unparse(sc[0].args[1]) == "payload.encode()"
+    ok = len(sc) == 1 and dotted(sc[0].args[0]) == "id_" and C.utext(st, sc[0].args[1], calls="all") == "payload.encode()"
     ctx.check(ok, rule, st, "redis store_bucket: SET id_ <encoded bucket>", "set(id_, payload.encode())", f"redis store_bucket does {unparse(sc[0])[:80] if sc else 'nothing'}", instance="redis store")
     redis_bucket_expiry(ctx, rule)
     gb = ctx.func(f"{rd}.get_bucket")
